@@ -10,6 +10,7 @@
 //! 2: harness error.
 
 #![allow(dead_code)]
+mod c18;
 mod cov;
 mod events;
 mod gen;
